@@ -757,6 +757,10 @@ class CSSMatch(_DocumentNav):
                 # Can't match a prefix attribute as we haven't specified one to match
                 # Try to match it normally as a whole `p:a` as selector may be trying `p\:a`.
                 if ns is None:
+                    # A key can be in a namespace without carrying a prefix (the URI is also the default namespace);
+                    # that is not the attribute without a namespace.
+                    if namespace and not getattr(k, 'prefix', None):
+                        continue
                     if (self.is_xml and attr == k) or (not self.is_xml and util.lower(attr) == util.lower(k)):
                         value = v
                         break
